@@ -2171,13 +2171,8 @@ fn do_render_node<T: Write, D: TextDecorator>(
         Ol(start, items) => {
             let num_items = items.len();
 
-            // The prefix width could be at either end if the start is negative.
-            let min_number = start;
-            // Assumption: num_items can't overflow isize.
-            let max_number = start.saturating_add((num_items as i64) - 1);
-            let prefix_width_min = prefix_width(&renderer.ordered_item_prefix(min_number));
-            let prefix_width_max = prefix_width(&renderer.ordered_item_prefix(max_number));
-            let prefix_width = max(prefix_width_min, prefix_width_max);
+            let prefix_width =
+                max_ol_prefix_width(start, num_items, |i| renderer.ordered_item_prefix(i));
             let prefixn = " ".repeat(prefix_width);
             let i: Cell<_> = Cell::new(start);
 
@@ -2949,15 +2944,23 @@ pub use ansi_colours::from_read_coloured;
 mod tests;
 
 fn calc_ol_prefix_size<D: TextDecorator>(start: i64, num_items: usize, decorator: &D) -> usize {
-    // The prefix width could be at either end if the start is negative.
-    let min_number = start;
-    // Assumption: num_items can't overflow isize.
-    let max_number = start.saturating_add((num_items as i64) - 1);
+    max_ol_prefix_width(start, num_items, |i| decorator.ordered_item_prefix(i))
+}
 
-    // This assumes that the decorator gives the same width as default.
-    let prefix_width_min = prefix_width(&decorator.ordered_item_prefix(min_number));
-    let prefix_width_max = prefix_width(&decorator.ordered_item_prefix(max_number));
-    max(prefix_width_min, prefix_width_max)
+/// The width of the widest marker of an ordered list.  With the default
+/// numbering that is at one of the ends (the first one if the start is
+/// negative), but a decorator is free to number the items in a way where it
+/// isn't (for example roman numerals), so all of them are measured.
+fn max_ol_prefix_width(
+    start: i64,
+    num_items: usize,
+    mut prefix: impl FnMut(i64) -> String,
+) -> usize {
+    // Assumption: num_items can't overflow isize.
+    (0..max(num_items, 1) as i64)
+        .map(|k| prefix_width(&prefix(start.saturating_add(k))))
+        .max()
+        .unwrap_or(0)
 }
 
 /// The display width of a decorator-supplied prefix (the sum of the widths of
